@@ -4,12 +4,13 @@ let rec int_of_pos = function XH -> 1 | XO p -> 2 * int_of_pos p | XI p -> 2 * i
 let int_of_n = function N0 -> 0 | Npos p -> int_of_pos p
 let int_of_z = function Z0 -> 0 | Zpos p -> int_of_pos p | Zneg p -> - (int_of_pos p)
 let s l = String.concat "." (List.map (fun c -> string_of_int (int_of_n c)) l)
+let view = if Array.length Sys.argv > 1 && Sys.argv.(1) = "synth" then synth_gv else default_gv
 let () =
   List.iter (fun g ->
     let root = g.g_name in
-    (match build default_gv root with
+    (match build view root with
      | OK st ->
        Printf.printf "ROOT %s\n" (s root);
        List.iter (fun n -> Printf.printf "N %s %d %d %s\n" (s n.n_id) (int_of_z n.n_gen) (int_of_z n.n_xpos) (s n.n_label)) st.nodes;
        List.iter (fun e -> Printf.printf "E %s %s %s\n" (s e.e_from) (s e.e_to) (s e.e_label)) st.edges
-     | Raise _ -> Printf.printf "ROOT %s\nERR\n" (s root))) default_gv
+     | Raise _ -> Printf.printf "ROOT %s\nERR\n" (s root))) view
